@@ -546,6 +546,9 @@ class Interp(object):
         elif isinstance(t, ast.Attribute):
             base = self.ev(t.value, st)
             st.top().pop("#minlen:" + norm(t), None)
+            if isinstance(base, AObj) and t.attr == "__dict__" and isinstance(v, dict):
+                st.heap[base.ident] = v
+                return
             if isinstance(base, AObj):
                 st.heap.setdefault(base.ident, {})[t.attr] = v
                 self.event("store_attr", t.attr, stmt, args=(base, v))
@@ -1405,6 +1408,10 @@ class Interp(object):
         return self.getattr(base, n.attr, st, n)
 
     def getattr(self, base, attr, st, node=None):
+        if isinstance(base, AObj) and attr == "__dict__":
+            return st.heap.setdefault(base.ident, {})
+        if isinstance(base, AObj) and attr == "__new__":
+            return ABuiltin("object.__new__")
         if isinstance(base, AObj):
             h = st.heap.get(base.ident, {})
             if attr in h:
